@@ -276,7 +276,7 @@ def run_batch(flavour, scenario, root, runs, tier, workers=None, time_cap=None, 
         spawn(w); ws.append(w)
     active = list(ws)
     while active:
-        time.sleep(0.05)
+        time.sleep(0.05)   # workers that end a run in a benign client deadlock exit and are restarted: keep the turnaround short
         for w in list(active):
             rc = w.p.poll()
             if rc is None:
